@@ -115,6 +115,25 @@ def seed_rules(run, db):
         if 'node' not in captured:
             raise AnalysisError('%s: derivative-order loop `for jj in range(1, j+1)` not found' % qual)
         outer, fr = captured['node'], captured['frame']
+        # derivative orders beyond the degree: the row index M - jj must stay >= 0 for every jj the loop visits
+        Mval = dom.rat(fr.env[Mname])
+        rargs = outer.iter.args if isinstance(outer.iter, ast.Call) and ast.unparse(outer.iter.func) == 'range' else []
+        if len(rargs) != 2:
+            raise AnalysisError('%s: derivative-order loop is not range(lo, hi)' % qual)
+        hi = dom.rat(it.ev(rargs[1], fr))
+        if hi is None or Mval is None:
+            raise AnalysisError('%s: derivative-order bound outside NORM' % qual)
+        jmax = hi - 1
+        bounded = False
+        for aname, info in list(R.info.items()):
+            if info and info[0] in ('min', 'builtins.min') and Rat(R.atom(aname)) == jmax and any(isinstance(x_, Rat) and x_ == Mval for x_ in info[1]):
+                bounded = True
+        if not bounded:
+            guards = [st for st in outer.body if isinstance(st, ast.If) and any(isinstance(x_, (ast.Break, ast.Continue)) for x_ in st.body) and Mname in ast.unparse(st.test) and 'jj' in ast.unparse(st.test)]
+            bounded = bool(guards)
+        run.check(bounded, 'C09.seed', f.qual, 'orders beyond the degree', 'the derivative-order loop stops at min(j, %s): rows beyond the degree of the sum stay zero and no index %s - jj < 0 is formed' % (Mname, Mname),
+                  'the derivative-order loop runs jj up to %s while the sum has degree %s = %s: for a single coefficient (or j above the degree) the row index %s - jj is negative -- '
+                  'a negative order reaches the recurrence coefficients (division by zero for some parameters) and the seed is written through a wrapped-around index' % (jmax.key(), Mname, Mval.key(), Mname), f.loc(outer))
         inner = [st for st in outer.body if isinstance(st, ast.For)]
         if len(inner) != 1:
             raise AnalysisError('%s: inner recurrence loop not found' % qual)
@@ -294,6 +313,7 @@ def offaxis_rules(run, db):
     f = db.func(S + 'Q2d_and_der')
     r_, t_, Rn = Rat(R.atom('r')), Rat(R.atom('t')), Rat(R.atom('normalization_radius'))
     atoms = {}
+    offcalls = []
 
     def A(name):
         atoms[name] = Rat(R.atom(name))
@@ -307,6 +327,13 @@ def offaxis_rules(run, db):
             if got is None or not (got == r_ / Rn):
                 run.finding('C09.rule', f.qual, 'normalised radius', 'compute_z_zprime_Q2d is not evaluated at r / normalization_radius', f.loc(node))
             return Tup([A('Z'), A('Zu'), A('Zt')])
+        if fi.name.startswith('off_axis_conic'):
+            bound = {}
+            for pn, av in zip(fi.params, args):
+                bound[pn] = repr(av)
+            for kn, av in kwargs.items():
+                bound[kn] = repr(av)
+            offcalls.append((fi.name, bound, node))
         if fi.name == 'off_axis_conic_sag':
             return A('B')
         if fi.name == 'off_axis_conic_der':
@@ -322,6 +349,12 @@ def offaxis_rules(run, db):
     if len(res) != 1 or not (isinstance(res[0].value, Tup) and len(res[0].value.items) == 3):
         raise AnalysisError('Q2d_and_der: expected one path returning (z, dr, dt)')
     z, zr, zt = [as_rat(dom, x, 'Q2d_and_der') for x in res[0].value.items]
+    want_args = {'c': repr(dom.sym('c')), 'kappa': repr(dom.sym('k')), 'r': repr(Sym(r_)), 't': repr(Sym(t_)), 'dx': repr(dom.sym('dx')), 'dy': repr(dom.sym('dy'))}
+    if len(offcalls) != 4:
+        raise AnalysisError('Q2d_and_der: expected four off-axis-conic calls, found %d' % len(offcalls))
+    for nm_, bound, nd in offcalls:
+        run.check(bound == want_args, 'C09.rule', f.qual, 'arguments of %s' % nm_, 'base sag, base slopes, sigma and sigma slopes are all evaluated for the same conic (c, k) at the same point (r, t) with the same decentre (dx, dy)',
+                  '%s is called with %s; the other pieces of the product rule use %s' % (nm_, bound, want_args), f.loc(nd))
     # declared derivatives: Z = Z(u, t) with u = r/R; B(r, t); 1/sig = G(r, t)
     (zk,), (bk,), (sk,) = [list(atoms[n].num.atoms()) for n in ('Z', 'B', 'sig')]
     R.deriv[zk] = {'r': atoms['Zu'] / Rn, 't': atoms['Zt']}
@@ -332,6 +365,66 @@ def offaxis_rules(run, db):
         want = diff(z, var, R)
         run.check(got == want, 'C09.rule', f.qual, 'assembly ' + nm, 'Q2d_and_der %s == d/d%s [base + Z(r/R, t)/sigma] by the product and chain rules' % (nm, var),
                   'Q2d_and_der: %s = %s, but d/d%s of the returned sag %s is %s' % (nm, got.key(), var, z.key(), want.key()), f.loc())
+
+
+def more_rules(run, db):
+    """1/phi slope of the spheroid; azimuthal assembly of the 2D-Q sag and slopes; the derivative sequence wrapper."""
+    from .common import block_as_function
+    S = 'prysm.x.raytracing.surfaces.'
+    # d/drho (1/phi_spheroid)
+    it, dom = norm_interp(db)
+    R = dom.R
+    fv, fd = db.func(S + 'phi_spheroid'), db.func(S + 'der_direction_cosine_spheroid')
+    rho = Rat(R.atom('rho'))
+    v = returns(it.run(fv, kwargs=lambda: {'c': dom.sym('c'), 'k': dom.sym('k'), 'rhosq': Sym(rho * rho)}), fv)
+    want = diff(Rat(R.const(1)) / as_rat(dom, v[0].value, 'phi'), 'rho', R)
+    npaths = 0
+    for kw in ({'rhosq': Const(None), 'phi': Const(None)}, {'rhosq': Sym(rho * rho), 'phi': Const(None)}, {'rhosq': Sym(rho * rho), 'phi': v[0].value}):
+        for pth in returns(it.run(fd, kwargs=lambda: dict({'c': dom.sym('c'), 'k': dom.sym('k'), 'rho': Sym(rho)}, **kw)), fd):
+            g = as_rat(dom, pth.value, fd.name)
+            npaths += 1
+            run.check(g == want, 'C09.rule', fd.qual, 'd/drho (1/phi) [%s]' % ', '.join(k_ for k_, v_ in kw.items() if not (isinstance(v_, Const) and v_.v is None)) or 'defaults',
+                      'der_direction_cosine_spheroid == d/drho (1/phi_spheroid(rho^2))', 'der_direction_cosine_spheroid = %s, but d/drho of 1/phi_spheroid is %s' % (g.key(), want.key()), fd.loc())
+    # azimuthal assembly of compute_z_zprime_Q2d: the statements after the two family blocks
+    f = db.func(Q + 'compute_z_zprime_Q2d')
+    loops = [n for n in walk_no_nested(f.node) if isinstance(n, ast.For) and 'a_coef' in ast.unparse(n.target)]
+    if len(loops) != 1:
+        raise AnalysisError('compute_z_zprime_Q2d: family loop not found')
+    body = loops[0].body
+    start = next((i for i, st in enumerate(body) if isinstance(st, ast.Assign) and ast.unparse(st.targets[0]) == 'um'), None)
+    if start is None:
+        raise AnalysisError('compute_z_zprime_Q2d: assembly block (um = u ** m ...) not found')
+    fn, params = block_as_function(f, body[start:], ['z', 'dr', 'dt'], 'assembly')
+    it2, dom2 = PF.mk_order(db)
+    R2 = dom2.R
+    dom2.lower['m'] = 1
+    u, t_, m_ = Rat(R2.atom('u')), Rat(R2.atom('t')), Rat(R2.atom('m'))
+    kw = {p_: dom2.sym(p_) for p_ in params}
+    kw.update({'z': Const(0), 'dr': Const(0), 'dt': Const(0), 'usq': Sym(u * u)})
+    res = returns(it2.run(fn, kwargs=lambda: dict(kw)), fn)
+    if len(res) != 1:
+        raise AnalysisError('compute_z_zprime_Q2d assembly: %d paths' % len(res))
+    z, dr, dt = [as_rat(dom2, x_, 'assembly') for x_ in res[0].value.items]
+    for nm, pr in (('Sa', 'Sprimea'), ('Sb', 'Sprimeb')):
+        R2.deriv[nm] = {'u': Rat(R2.atom(pr)) * 2 * u}          # S = S(u^2) with S' = dS/d(u^2)
+    # u**m and u**(m-1): d/du pow(u, m) = m pow(u, m-1)
+    pm, pm1 = R2.func('pow', [u, m_]), R2.func('pow', [u, m_ - 1])
+    (k_pm,), = [list(pm.t)[0][0][:1]]
+    R2.deriv[k_pm] = {'u': m_ * Rat(pm1)}
+    for nm, var, got in (('dr', 'u', dr), ('dt', 't', dt)):
+        law = {k_pm: u * Rat(pm1)}                       # u**m == u * u**(m-1)
+        w = diff(z, var, R2).subs(law)
+        got = got.subs(law)
+        run.check(got == w, 'C09.rule', f.qual, 'azimuthal assembly ' + nm, 'compute_z_zprime_Q2d: %s == d/d%s [u^m (cos(m t) Sa(u^2) + sin(m t) Sb(u^2))]' % (nm, var),
+                  'compute_z_zprime_Q2d: %s contribution is %s but d/d%s of the sag contribution %s is %s' % (nm, got.key(), var, z.key(), w.key()), f.loc(body[start]))
+    # zernike_nm_der_seq: slot j holds zernike_nm_der of request j with the caller's norm
+    fz = db.func(P + 'zernike.zernike_nm_der_seq')
+    lp = [n for n in walk_no_nested(fz.node) if isinstance(n, ast.For)]
+    ok = len(lp) == 1 and ast.unparse(lp[0].iter).replace(' ', '') == 'enumerate(nms)' and ast.unparse(lp[0].target).replace(' ', '') in ('(j,(n,m))', 'j,(n,m)')
+    if ok:
+        src = [ast.unparse(st).replace(' ', '') for st in lp[0].body]
+        ok = src in (['tmp=zernike_nm_der(n,m,r,t,norm=norm)', 'out[j]=tmp'], ['out[j]=zernike_nm_der(n,m,r,t,norm=norm)'])
+    run.check(ok, 'C09.id', fz.qual, 'wrapper', 'slot j holds zernike_nm_der(n_j, m_j, r, t, norm=norm)', 'zernike_nm_der_seq no longer stores zernike_nm_der(n, m, r, t, norm=norm) of request j in slot j', fz.loc())
 
 
 def check(run, db, tier):
@@ -350,6 +443,7 @@ def check(run, db, tier):
     run.group(seed_rules, run, db)
     run.group(rule_rules, run, db)
     run.group(offaxis_rules, run, db)
+    run.group(more_rules, run, db)
     run.require_instances('C09.id', 40)
-    run.require_instances('C09.seed', 6)
+    run.require_instances('C09.seed', 9)
     run.require_instances('C09.rule', 20)
